@@ -327,6 +327,20 @@ def _rooted(fi: Any, q: Any, a: ast.AST, site: ast.AST, seen: set[str]) -> tuple
     g = q.guards(site)
     if ('is_abs', 'T') in g or ('self.is_abs_pattern', 'T') in g:
         return True, 'under an absolute-path test'
+    from ..boolform import inline_locals
+    for t, pol in g:
+        if pol != 'T':
+            continue
+        try:
+            e = inline_locals(fi.node, ast.parse(t, mode='eval').body)
+        except SyntaxError:
+            continue
+        r = norm_src(inline_locals(fi.node, e) if isinstance(e, ast.Name) else e)
+        # the mount / drive pattern of the platform matched the name: `<RE_MOUNT twin>.match(name) is not None`
+        if ('.match(' in r and r.endswith(' is not None') and ('MOUNT' in r or 're_mount' in r)):
+            mt = norm_src(inline_locals(fi.node, ast.Name(id='re_mount', ctx=ast.Load()))) if 're_mount' in r else r
+            if 'MOUNT' in mt:
+                return True, 'under an absolute-path test'
     if isinstance(a, ast.Name) and a.id not in seen:
         defs = [d for d in walk_no_nested(fi.node) if isinstance(d, ast.Assign) and
                 any(isinstance(t, ast.Name) and t.id == a.id for t in d.targets)]
